@@ -278,7 +278,12 @@ type matchedEntry struct {
 }
 
 func matchEntries(before, after []Entry) (ml []matchedEntry) {
-	for _, a := range after {
+	ml = make([]matchedEntry, 0, len(after))
+	isMatched := make([]bool, len(after))
+
+	// First pair up rules that were not modified, so that a modified or new rule
+	// with the same name can't claim the old version of an untouched rule.
+	for i, a := range after {
 		slog.Debug(
 			"Matching HEAD rule",
 			slog.String("path", a.Path.Name),
@@ -288,7 +293,6 @@ func matchEntries(before, after []Entry) (ml []matchedEntry) {
 
 		m := matchedEntry{after: a, hasAfter: true} // nolint: exhaustruct
 		beforeSwap := make([]Entry, 0, len(before))
-		var matches []Entry
 		var matched bool
 
 		for _, b := range before {
@@ -309,25 +313,32 @@ func matchEntries(before, after []Entry) (ml []matchedEntry) {
 		}
 		before = beforeSwap
 
-		if !matched {
-			before, matches = findRulesByName(before, a.Rule.Name(), a.Rule.Type())
-			switch len(matches) {
-			case 0:
-			case 1:
-				m.before = matches[0]
-				m.hasBefore = true
-				m.wasMoved = a.Path.Name != matches[0].Path.Name
-				slog.Debug("Found rule with same name on before & after")
-			default:
-				slog.Debug(
-					"Found multiple rules with same name on before & after",
-					slog.Int("matches", len(matches)),
-				)
-				before = append(before, matches...)
-			}
-		}
-
+		isMatched[i] = matched
 		ml = append(ml, m)
+	}
+
+	// Then match everything else by name.
+	var matches []Entry
+	for i, a := range after {
+		if isMatched[i] {
+			continue
+		}
+		before, matches = findRulesByName(before, a.Rule.Name(), a.Rule.Type())
+		switch len(matches) {
+		case 0:
+		case 1:
+			ml[i].before = matches[0]
+			ml[i].hasBefore = true
+			ml[i].wasMoved = a.Path.Name != matches[0].Path.Name
+			slog.Debug("Found rule with same name on before & after", slog.String("name", a.Rule.Name()))
+		default:
+			slog.Debug(
+				"Found multiple rules with same name on before & after",
+				slog.String("name", a.Rule.Name()),
+				slog.Int("matches", len(matches)),
+			)
+			before = append(before, matches...)
+		}
 	}
 
 	for _, b := range before {
